@@ -185,6 +185,23 @@ func check(c *pbt.Ctx, cs Case) {
 	if err2 != nil || !bytes.Equal(buf, out) {
 		c.Failf("dointo-differs", "DoInto(cap=%d) err=%v output differs from Do:\n%s\nvs\n%s", cs.BufCap, err2, trunc(buf), trunc(out))
 	}
+	// the document returned by Do stays intact while the converter goes on working: convert a message of the same shape
+	// whose strings and binaries all hold other bytes, then look at the first result again
+	keep := append([]byte(nil), out...)
+	other := cs.V.Clone()
+	tm.Walk(other, func(_ []tm.Step, n *tm.Value, _ *tm.Value) {
+		if n.K == tm.STRING {
+			n.S = bytes.Repeat([]byte{'Z'}, len(n.S))
+		}
+	})
+	c.Step("a second t2j.Do on another message; the first document must not change")
+	c.Protect("", func() { _, _ = cv.Do(ctx, comp.Root, tm.Encode(other)) })
+	if !bytes.Equal(out, keep) {
+		c.Failf("result-overwritten", "the document returned by Do (%d bytes) changed during a later conversion:\n%s\nwas\n%s", len(out), trunc(out), trunc(keep))
+	}
+	if len(out) > 4096 {
+		c.Class("document>4096")
+	}
 	if tm.Count(cs.V) >= 4 {
 		c.NonTrivial()
 	}
